@@ -22,6 +22,9 @@ rows = ["#### 9.5.2 Changes seeded by independent sub-agents (`seeded/<id>/`)", 
         "| id | property | caught by | needed strengthening | what the change is / what it needs to manifest |", "|---|---|---|---|---|"]
 extra = {"C08": "yes: downloads after an abandoned earlier transfer on the same key (model `DlPre`, driver `prior`)",
          "C12": "yes: token length varied per request; the reply's wire image (`wire`) is recorded and must decode to the prepared reply",
+         "R2C04": "yes: messages whose public header field was replaced after set_token (token-length nibble != token) at the limit boundaries",
+         "R2C11": "yes (attribution): the rejection was reported under C20 only ('behaves as if expired'); the pinned predicates are now reported as well",
+         "R2C16": "yes: a non-ASCII White_Space character in the model alphabet; driver values with white-space edges",
          "C20": "yes: expiry under block-wise traffic on other keys (model `Other` now block-wise; driver scenario `expiry-traffic`)"}
 for d in sorted(glob.glob(os.path.join(ROOT, "seeded", "*", "meta.json"))):
     m = json.load(open(d))
